@@ -129,21 +129,18 @@ def rule_immutable_description(ctx: Ctx, out: Collector) -> None:
     # DAG.run: manager constructed per call and not stored
     dag_run = p.func(DAG_RUN)
     mgr = ctx.manager_class()
-    env = FuncEnv.of(p, dag_run)
-    constructed = False
+    # on the event graph of DAG.run, helpers it is split into included
+    g = ctx.graph(DAG_RUN)
+    ctors = [ev for ev in g.events('call') if any(t[0] == 'class' and t[1] is mgr for t in ev.info.get('targets', ()))]
+    constructed = bool(ctors)
     stored = False
-    for n in env.own_nodes():
-        if isinstance(n, ast.Call):
-            for t in env.resolve_call(n):
-                if t[0] == 'class' and t[1] is mgr:
-                    constructed = True
-        if isinstance(n, (ast.Assign, ast.AnnAssign)):
-            tgts = n.targets if isinstance(n, ast.Assign) else [n.target]
-            for t in tgts:
-                if isinstance(t, (ast.Attribute, ast.Subscript)) and n.value is not None:
-                    vt = env.type_of(n.value)
-                    if vt == ('class', mgr):
-                        stored = True
+    for st in g.events('store'):
+        val = st.info.get('value')
+        if val is None:
+            continue
+        e, i = sym.resolve_value(p, val, st.inst)
+        if any(e is c.node for c in ctors):
+            stored = True
     cons = f'{dag_run.module.name}::{dag_run.qualname}::new manager per call'
     if constructed and not stored:
         out.ok('SH-2', cons, p.loc(dag_run, dag_run.node), 'DAG.run constructs a new run manager for every call and keeps it local')
